@@ -231,6 +231,7 @@ pub fn c10(g: &mut G) {
     }
     // 16 MiB+ files as written by earlier releases (4-byte address deltas), read by the crate
     g.emit("!scale bigfile map 21 old".into());
+    g.emit("!reuse 5".into());
     // header grid: versions × lengths 0..40
     let versions: [u64; 7] = [0, 1, 2, 3, 4, 1 << 32, u64::MAX];
     for &v in &versions {
@@ -310,6 +311,21 @@ pub fn c12(g: &mut G) {
         g.emit(format!("!minimal map {}", show_calls(&ins_calls(&kv))));
     }
     g.emit("!scale livebuilders 100".into());
+    g.emit("!interleave 1".into());
+    // histories with rejected calls: an error must not cost any sharing
+    for i in 0..(if g.thorough { 200 } else { 40 }) {
+        let mut rng = Rng::new(g.rng.next());
+        let words = random_words(&mut rng, 8 + i % 20, b"abc", 5);
+        let mut calls: Vec<Call> = vec![];
+        for (j, w) in words.iter().enumerate() {
+            calls.push(if i % 2 == 0 { Call::Ins(w.clone(), (j as u64 * 7) % 5) } else { Call::Add(w.clone()) });
+            while rng.chance(1, 3) {
+                let back = rng.below(j as u64 + 1) as usize;
+                calls.push(if i % 2 == 0 { Call::Ins(words[j - back].clone(), 1) } else { Call::Add(words[j - back].clone()) });
+            }
+        }
+        g.emit(format!("stats 0 {} {}", ["default", "3x3", "7x2"][i % 3], show_calls(&calls)));
+    }
     for f in ["words-10000", "words-100000", "wiki-urls-10000", "wiki-urls-100000"] {
         if f.contains("100000") && !g.thorough {
             continue;
@@ -339,6 +355,8 @@ pub fn c13(g: &mut G) {
             g.emit(format!("!memfe {} {} {}", fe, n1, 2 * n1));
         }
     }
+    // several builders alive at once, a build after a big one, a builder that changes threads
+    g.emit(format!("!meminterleave {} {}", n1, n1 * 2));
     // model footprint vs hook footprint on small inputs
     let sets = key_sets(g);
     for (i, (_, keys)) in sets.iter().enumerate() {
@@ -356,6 +374,9 @@ pub fn c14(g: &mut G) {
         g.emit(format!("!memstream {} {} {}", n1, n2, k));
     }
     g.emit("!freshopen".to_string());
+    // what earlier traversals leave behind
+    g.emit(format!("!memhistory {}", n1));
+    g.emit(format!("!memhistory {}", n2));
     // model: stack depth / buffer length invariants are theorem-only; the
     // streams themselves are exercised for correspondence
     let sets = key_sets(g);
@@ -458,6 +479,24 @@ pub fn c15(g: &mut G) {
         g.emit(format!("sink 0 default {} - _ {}", script.join(","), show_calls(&ins_calls(&kv))));
     }
     // very many builds in one thread (anything recycled between builds), many builders alive at once
+    g.emit("!interleave 2".into());
+    // by-reference iterators: the builder goes on after each error of extend_iter
+    for i in 0..(if g.thorough { 300 } else { 60 }) {
+        let mut rng = Rng::new(g.rng.next());
+        let words = random_words(&mut rng, 4 + i % 9, b"ab", 3);
+        let mut calls: Vec<Call> = vec![];
+        for (j, w) in words.iter().enumerate() {
+            calls.push(Call::Ins(w.clone(), 3 + j as u64));
+            if j >= 2 && rng.chance(1, 2) {
+                let back = rng.below(j as u64 + 1) as usize;
+                calls.push(Call::Ins(words[j - back].clone(), rng.below(9)));
+            }
+        }
+        g.emit(build_line("map_iter_resume", 0, "default", "resume", &calls));
+        g.emit(build_line("raw_iter_resume", 0, "default", "resume", &calls));
+        let adds: Vec<Call> = calls.iter().map(|c| match c { Call::Ins(k, _) | Call::Add(k) => Call::Add(k.clone()) }).collect();
+        g.emit(build_line("set_iter_resume", 0, "default", "resume", &adds));
+    }
     g.emit(format!("!scale manybuilds {}", if g.thorough { 140_000 } else { 70_000 }));
     g.emit("!scale livebuilders 100".into());
     // enough distinct nodes to overflow cache buckets (evictions): threads / processes must still agree
@@ -468,6 +507,8 @@ pub fn c15(g: &mut G) {
 }
 
 pub fn c16(g: &mut G) {
+    g.emit("!reuse 6".into());
+    g.emit("!conc 6".into());
     g.emit("!scale bigfile map 21".into());
     // every subset of the strings of length <= 2 over {a,b} with values around 2^32 / 2^56:
     // sibling subtrees whose minima need 5+ byte outputs on the inner transitions
